@@ -29,6 +29,7 @@ import (
 	"go/parser"
 	"go/token"
 	"go/types"
+	"hash/fnv"
 	"os"
 	"path/filepath"
 	"reflect"
@@ -43,8 +44,8 @@ import (
 // refKeys scans the non-test Go files below dir (syntax only, every build configuration) and returns
 // the keys of declared functions ("pkg/action:Install.failRelease", "pkg/action:newX") and of local
 // variables bound to function literals ("pkg/action:Upgrade.releasingUpgrade/var:name").
-func refKeys(dir string) (map[string]bool, error) {
-	keys := map[string]bool{}
+func refKeys(dir string) (map[string]string, error) {
+	keys := map[string]string{}
 	fset := token.NewFileSet()
 	err := filepath.Walk(dir, func(p string, fi os.FileInfo, err error) error {
 		if err != nil {
@@ -66,15 +67,22 @@ func refKeys(dir string) (map[string]bool, error) {
 		}
 		rel, _ := filepath.Rel(dir, filepath.Dir(p))
 		for _, d := range f.Decls {
+			if gd, ok := d.(*ast.GenDecl); ok && gd.Tok == token.TYPE {
+				for _, sp := range gd.Specs {
+					if ts, ok := sp.(*ast.TypeSpec); ok {
+						keys[filepath.ToSlash(rel)+":type:"+ts.Name.Name] = types.ExprString(ts.Type)
+					}
+				}
+			}
 			fd, ok := d.(*ast.FuncDecl)
 			if !ok {
 				continue
 			}
 			k := declKey(rel, fd)
-			keys[k] = true
+			keys[k] = declSig(fd) + "|" + bodyShape(fd)
 			if fd.Body != nil {
 				for _, v := range closureVars(fd.Body) {
-					keys[k+"/var:"+v] = true
+					keys[k+"/var:"+v] = "closure"
 				}
 			}
 		}
@@ -89,6 +97,37 @@ func declKey(rel string, fd *ast.FuncDecl) string {
 		name = recvTypeName(fd.Recv.List[0].Type) + "." + name
 	}
 	return filepath.ToSlash(rel) + ":" + name
+}
+
+// declSig: receiver form and parameter/result types, without names (syntactic, configuration independent).
+func declSig(fd *ast.FuncDecl) string {
+	var sb strings.Builder
+	if fd.Recv != nil && len(fd.Recv.List) == 1 {
+		if _, ptr := fd.Recv.List[0].Type.(*ast.StarExpr); ptr {
+			sb.WriteString("(*)")
+		} else {
+			sb.WriteString("()")
+		}
+	}
+	list := func(fl *ast.FieldList) {
+		sb.WriteString("(")
+		if fl != nil {
+			for _, f := range fl.List {
+				n := len(f.Names)
+				if n == 0 {
+					n = 1
+				}
+				for i := 0; i < n; i++ {
+					sb.WriteString(types.ExprString(f.Type))
+					sb.WriteString(",")
+				}
+			}
+		}
+		sb.WriteString(")")
+	}
+	list(fd.Type.Params)
+	list(fd.Type.Results)
+	return sb.String()
 }
 
 func recvTypeName(e ast.Expr) string {
@@ -128,31 +167,268 @@ func closureVars(body *ast.BlockStmt) []string {
 	return out
 }
 
-func readRefList(path string) (map[string]bool, error) {
+func readRefList(path string) (map[string]string, error) {
 	f, err := os.Open(path)
 	if err != nil {
 		return nil, err
 	}
 	defer f.Close()
-	keys := map[string]bool{}
+	keys := map[string]string{}
 	sc := bufio.NewScanner(f)
+	sc.Buffer(make([]byte, 1<<20), 1<<20)
 	for sc.Scan() {
-		l := strings.TrimSpace(sc.Text())
-		if l != "" && !strings.HasPrefix(l, "#") {
-			keys[l] = true
+		l := strings.TrimRight(sc.Text(), "\r\n ")
+		if l == "" || strings.HasPrefix(l, "#") {
+			continue
 		}
+		k, sig, _ := strings.Cut(l, "\t")
+		keys[k] = sig
 	}
 	return keys, sc.Err()
 }
 
-func writeRefList(path string, keys map[string]bool) error {
+type renEnt struct{ pkg, recv, name, sig, shape, key string }
+
+// detectRenames pairs functions that vanished from the reference list with new functions of the same
+// package that have the same receiver and the same signature; candidates are told apart by the shape
+// of their bodies (syntax with identifier names erased). A pairing must be unique both ways. A renamed
+// receiver type is recognised when the package lost exactly one receiver type and gained exactly one.
+// Returns new key -> old key.
+func detectRenames(ref, cur map[string]string) map[string]string {
+	out := map[string]string{}
+	// types: a vanished type and a new type of the same package with the same definition (after
+	// substituting the type renames found so far)
+	typeOld := map[string]map[string]string{} // pkg -> new name -> old name
+	for pass := 0; pass < 3; pass++ {
+		norm := func(pkg, def string) string {
+			for n, o := range typeOld[pkg] {
+				def = replaceWord(def, n, o)
+			}
+			return def
+		}
+		for k, def := range ref {
+			pkg, name, ok := strings.Cut(k, ":type:")
+			if !ok {
+				continue
+			}
+			if _, still := cur[k]; still {
+				continue
+			}
+			var cands []string
+			for k2, def2 := range cur {
+				pkg2, name2, ok2 := strings.Cut(k2, ":type:")
+				if !ok2 || pkg2 != pkg {
+					continue
+				}
+				if _, known := ref[k2]; known {
+					continue
+				}
+				if _, used := out[k2]; used {
+					continue
+				}
+				if norm(pkg, replaceWord(def2, name2, name)) == def {
+					cands = append(cands, k2)
+				}
+			}
+			if len(cands) == 1 {
+				taken := false
+				for _, o := range out {
+					if o == k {
+						taken = true
+					}
+				}
+				if !taken {
+					out[cands[0]] = k
+					_, n2, _ := strings.Cut(cands[0], ":type:")
+					if typeOld[pkg] == nil {
+						typeOld[pkg] = map[string]string{}
+					}
+					typeOld[pkg][n2] = name
+				}
+			}
+		}
+	}
+	normSig := func(pkg, sig string) string {
+		for n, o := range typeOld[pkg] {
+			sig = replaceWord(sig, n, o)
+		}
+		return sig
+	}
+	parse := func(k, v string) (renEnt, bool) {
+		if strings.Contains(k, "/var:") || strings.Contains(k, ":type:") {
+			return renEnt{}, false
+		}
+		pkg, rest, ok := strings.Cut(k, ":")
+		if !ok {
+			return renEnt{}, false
+		}
+		recv, name := "", rest
+		if i := strings.Index(rest, "."); i >= 0 {
+			recv, name = rest[:i], rest[i+1:]
+		}
+		sig, shape, _ := strings.Cut(v, "|")
+		return renEnt{pkg, recv, name, sig, shape, k}, true
+	}
+	van := map[string][]renEnt{}
+	fresh := map[string][]renEnt{}
+	recvRef := map[string]map[string]bool{}
+	recvCur := map[string]map[string]bool{}
+	note := func(m map[string]map[string]bool, e renEnt) {
+		if e.recv == "" {
+			return
+		}
+		if m[e.pkg] == nil {
+			m[e.pkg] = map[string]bool{}
+		}
+		m[e.pkg][e.recv] = true
+	}
+	for k, v := range ref {
+		if e, ok := parse(k, v); ok {
+			note(recvRef, e)
+			if _, still := cur[k]; !still {
+				van[e.pkg] = append(van[e.pkg], e)
+			}
+		}
+	}
+	for k, v := range cur {
+		if e, ok := parse(k, v); ok {
+			note(recvCur, e)
+			if _, known := ref[k]; !known {
+				fresh[e.pkg] = append(fresh[e.pkg], e)
+			}
+		}
+	}
+	for pkg, vs := range van {
+		typeMap := map[string]string{}
+		for n, o := range typeOld[pkg] {
+			typeMap[o] = n
+		}
+		var goneT, newT []string
+		for t := range recvRef[pkg] {
+			if !recvCur[pkg][t] {
+				goneT = append(goneT, t)
+			}
+		}
+		for t := range recvCur[pkg] {
+			if !recvRef[pkg][t] {
+				newT = append(newT, t)
+			}
+		}
+		if len(goneT) == 1 && len(newT) == 1 && typeMap[goneT[0]] == "" {
+			typeMap[goneT[0]] = newT[0]
+		}
+		sameRecv := func(v, f renEnt) bool {
+			return v.recv == f.recv || (typeMap[v.recv] != "" && typeMap[v.recv] == f.recv)
+		}
+		arity := func(sig string) int { return strings.Count(sig, ",")*16 + strings.Count(sig, "(") }
+		for _, level := range []int{0, 1, 2} { // 0: signature and shape, 1: signature only, 2: shape and arity (a type in the signature was renamed too)
+			match := func(v, f renEnt) bool {
+				if !sameRecv(v, f) {
+					return false
+				}
+				switch level {
+				case 0:
+					return v.sig == normSig(pkg, f.sig) && v.shape == f.shape
+				case 1:
+					return v.sig == normSig(pkg, f.sig)
+				}
+				return v.shape == f.shape && v.shape != "-" && arity(v.sig) == arity(f.sig)
+			}
+			taken := map[string]bool{}
+			for _, o := range out {
+				taken[o] = true
+			}
+			for _, v := range vs {
+				if taken[v.key] {
+					continue
+				}
+				var cands []renEnt
+				for _, f := range fresh[pkg] {
+					if _, used := out[f.key]; !used && match(v, f) {
+						cands = append(cands, f)
+					}
+				}
+				if len(cands) != 1 {
+					continue
+				}
+				n := 0
+				for _, v2 := range vs {
+					if !taken[v2.key] && match(v2, cands[0]) {
+						n++
+					}
+				}
+				if n == 1 {
+					out[cands[0].key] = v.key
+				}
+			}
+		}
+	}
+	return out
+}
+
+// replaceWord substitutes whole identifiers.
+func replaceWord(s, from, to string) string {
+	if from == to || !strings.Contains(s, from) {
+		return s
+	}
+	var sb strings.Builder
+	isId := func(c byte) bool {
+		return c == '_' || c >= '0' && c <= '9' || c >= 'a' && c <= 'z' || c >= 'A' && c <= 'Z'
+	}
+	for i := 0; i < len(s); {
+		if strings.HasPrefix(s[i:], from) && (i == 0 || !isId(s[i-1])) && (i+len(from) == len(s) || !isId(s[i+len(from)])) {
+			sb.WriteString(to)
+			i += len(from)
+			continue
+		}
+		sb.WriteByte(s[i])
+		i++
+	}
+	return sb.String()
+}
+
+// bodyShape: a hash of the body's syntax with identifier names erased (stable under renames).
+func bodyShape(fd *ast.FuncDecl) string {
+	if fd.Body == nil {
+		return "-"
+	}
+	h := fnv.New64a()
+	ast.Inspect(fd.Body, func(n ast.Node) bool {
+		if n == nil {
+			h.Write([]byte(")"))
+			return true
+		}
+		switch x := n.(type) {
+		case *ast.Ident:
+			h.Write([]byte("I"))
+		case *ast.BasicLit:
+			h.Write([]byte(x.Value))
+		case *ast.BinaryExpr:
+			h.Write([]byte(x.Op.String()))
+		case *ast.UnaryExpr:
+			h.Write([]byte(x.Op.String()))
+		case *ast.AssignStmt:
+			h.Write([]byte(x.Tok.String()))
+		case *ast.BranchStmt:
+			h.Write([]byte(x.Tok.String()))
+		case *ast.CommentGroup, *ast.Comment:
+			return false
+		default:
+			h.Write([]byte(fmt.Sprintf("%T(", n)))
+		}
+		return true
+	})
+	return fmt.Sprintf("%x", h.Sum64())
+}
+
+func writeRefList(path string, keys map[string]string) error {
 	var ks []string
-	for k := range keys {
-		ks = append(ks, k)
+	for k, sig := range keys {
+		ks = append(ks, k+"\t"+sig)
 	}
 	sort.Strings(ks)
 	os.MkdirAll(filepath.Dir(path), 0o755)
-	return os.WriteFile(path, []byte("# functions, methods and closure-bound locals of the reference tree (tools: helmverif -emit-ref)\n"+strings.Join(ks, "\n")+"\n"), 0o644)
+	return os.WriteFile(path, []byte("# functions, methods and closure-bound locals of the reference tree with their signatures (helmverif -emit-ref)\n"+strings.Join(ks, "\n")+"\n"), 0o644)
 }
 
 // ---- cloning -------------------------------------------------------------------------------------------
@@ -257,7 +533,7 @@ func relPkgDir(w *World, p *packages.Package) string {
 }
 
 // planAndInline mutates the syntax trees of the loaded root packages; returns the files touched.
-func planAndInline(w *World, ref map[string]bool) (map[string]*ast.File, []string, func()) {
+func planAndInline(w *World, ref map[string]bool) (map[string]*ast.File, []string, func()) { // ref: keys that are NOT new
 	in := &inliner{w: w, byObj: map[types.Object]*inlCallee{}, touched: map[*ast.File]bool{}, newKeys: map[string]bool{}}
 	// collect new helpers
 	for _, p := range w.Roots {
@@ -707,7 +983,7 @@ func (in *inliner) expandList(p *packages.Package, f *ast.File, list *[]ast.Stmt
 				}
 			case *ast.RangeStmt:
 				es = []ast.Expr{x.X}
-					case *ast.DeclStmt:
+			case *ast.DeclStmt:
 				if gd, ok := x.Decl.(*ast.GenDecl); ok && gd.Tok == token.VAR && len(gd.Specs) == 1 {
 					if vs, ok := gd.Specs[0].(*ast.ValueSpec); ok {
 						es = vs.Values
